@@ -8,7 +8,7 @@ ID = "C18"
 PROPS_MODULE = "H5.Props.C18"
 GEN_MODULES = ["AlphabeticalAttributes"]
 CORRESPONDENCE_OPS = ["alpha"]
-SOURCES = ["html5lib/filters/alphabeticalattributes.py"]
+SOURCES = ["html5lib/filters/alphabeticalattributes.py", "html5lib/serializer.py"]
 LEVEL = "proof"
 TRUSTED = ["hand model of alphabeticalattributes.Filter.__iter__ (H5.Model.Alphabetical), tied by op alpha",
            "Python sorted() = stable sort by key; tuple/str comparison = lexicographic on code points",
@@ -99,6 +99,31 @@ def run(ctx):
                 explained = len(seen) == 1
             ctx.fail("order-dependent:none-and-empty-namespace-same-local-name" if explained else "order-dependent",
                      "result depends on the incoming attribute order", {"keys": repr(ks)})
+    # the filter as wired into the serializer (alphabetical_attributes=True): the start tag that is written carries every
+    # attribute, by local name, in the filter's order (same local name in two namespaces: both are written)
+    import re
+    from html5lib.serializer import HTMLSerializer
+    for ks in sets:
+        if len(ks) < 2 or any(k[0] == "" for k in ks):
+            continue
+        perms = list(itertools.permutations(ks))
+        for perm in ([perms[0], perms[-1]] if ctx.tier == "quick" else perms):
+            tok = {"type": "StartTag", "name": "x", "namespace": None,
+                   "data": collections.OrderedDict((k, "v%d" % keys.index(k)) for k in perm)}
+            ser = HTMLSerializer(alphabetical_attributes=True, quote_attr_values="always", omit_optional_tags=False)
+            try:
+                out = ser.render([tok])
+            except Exception as e:
+                ctx.fail("serializer-raises:%s" % type(e).__name__, "HTMLSerializer(alphabetical_attributes=True) raised", {"token": repr(tok)})
+                continue
+            got = re.findall(r' ([^\s="]+)="([^"]*)"', out)
+            want = [(k[1], "v%d" % keys.index(k)) for k in sorted(ks, key=spec_key)]
+            ctx.case("alpha-serializer", repr(perm), nontrivial=True)
+            ctx.count("alpha-serializer")
+            if got != want:
+                ctx.fail("serializer-start-tag-attributes-differ", "the start tag written with alphabetical_attributes=True does not carry "
+                         "exactly the given attributes in (namespace or '', name) order", {"attributes": repr(list(tok["data"].items())),
+                                                                                        "written": out, "expected": repr(want)})
     names = ["a", "div", "svg", "input"]
     for i in range(ctx.scale(1500, 30000)):
         toks = gen.token_stream(ctx.rng, names, maxlen=8)
